@@ -636,4 +636,18 @@ theorem tve_correct (A : List Nat) (rules : List Rule) (hA : ∀ d ∈ A, 0 < d)
   have h3 := tve_value_correct A rules hA hwf hne
   exact ⟨h1, by rw [h2, h3], h3⟩
 
+/-- the hypotheses of `tve_correct` hold for a concrete non-trivial instance (4 agents, one in no rule; overlapping,
+    nested, duplicate, negative rules; absent entries), and its conclusion is then the evaluated fact below -/
+example :
+    let A := [2,3,2,2]
+    let rules : List Rule := [⟨[0,1],[1,2],-3/2⟩, ⟨[1],[2],2⟩, ⟨[0,1],[1,2],1/4⟩, ⟨[3],[0],-1/2⟩, ⟨[0,1,3],[0,0,1],5/4⟩]
+    (∀ d ∈ A, 0 < d) ∧ (∀ r ∈ rules, r.WF A) ∧ (∀ r ∈ rules, r.keys ≠ []) ∧ tveRun A rules = ([0,2,0,1], 2) := by
+  refine ⟨by decide, ?_, ?_, by decide +kernel⟩
+  · intro r hr
+    simp only [List.mem_cons, List.mem_nil_iff, or_false] at hr
+    rcases hr with rfl | rfl | rfl | rfl | rfl <;> exact ⟨by decide, (validB_iff _ _).mp (by decide)⟩
+  · intro r hr
+    simp only [List.mem_cons, List.mem_nil_iff, or_false] at hr
+    rcases hr with rfl | rfl | rfl | rfl | rfl <;> simp
+
 end AITB.VE
